@@ -166,7 +166,7 @@ def execute(case):
     builds, names, motifs_rec = [], [], []
     for j, (orbits, shape, bare) in enumerate(cfg["motifs"]):
         size, pairs = get_shape(shape)
-        lib = lib_callback(shape) if isinstance(shape, str) and (not cfg["custom"] or not bare) else None
+        lib = lib_callback(shape) if isinstance(shape, str) and (not cfg["custom"] or not bare) and not case.get("simple_builder") else None
 
         def build(vs, j=j, pairs=pairs, bare=bare, lib=lib, style=style):
             vs = list(vs)
@@ -178,12 +178,23 @@ def execute(case):
                 # user callbacks may return tuples or lists of tuples or lists: all are "edges as pairs"
                 inner = list if style in (2, 3) else tuple
                 outer = list if style in (1, 3) or not cfg["custom"] else tuple
-                ret = outer(inner((vs[a], vs[b])) for a, b in pairs)
+                prs = [(vs[a], vs[b]) for a, b in pairs]
+                if case.get("simple_builder"):
+                    # a 'simple graph' builder: drops self-loops and repeated pairs, so the number of edges returned
+                    # varies from one motif instance to the next
+                    seen_, out_ = set(), []
+                    for x, y in prs:
+                        if x != y and frozenset((x, y)) not in seen_:
+                            seen_.add(frozenset((x, y))); out_.append((x, y))
+                    prs = out_
+                ret = outer(inner(p_) for p_ in prs)
             calls.append({"m": j + 1, "verts": [int(v) for v in vs], "ret": _norm_edges(ret)})
             return ret
         builds.append(build)
         if cfg["custom"]:
             per_edge = ["m%de%d" % (j, i) for i in range(len(pairs))]
+            if bare:
+                per_edge = [["K2", "x", "m%de0" % j][(j + case.get("name_style", 0)) % 3]]      # names of 2, 1 and 4 characters
             nstyle = case.get("name_style", 0)      # container the naming callback uses
             if bare and nstyle % 3 == 0:
                 names.append(lambda per_edge=per_edge: per_edge[0])            # a bare name for a bare edge
